@@ -44,7 +44,7 @@ def tables(rep, tier, tag, which="ab"):
     return out
 
 
-def conformance(rep, tier, tabs, what, n_quick, prop_prefix, threads=(1,)):
+def conformance(rep, tier, tabs, what, n_quick, prop_prefix, threads=(1,), scales=(1.0,)):
     rng = random.Random(vlib.seed())
     sel = list(tabs)
     rng.shuffle(sel)
@@ -63,8 +63,8 @@ def conformance(rep, tier, tabs, what, n_quick, prop_prefix, threads=(1,)):
     if sel:
         s = sel[0]
         rep.sample({k: s[k] for k in ("nr", "nt", "nc", "dir", "h", "k", "r0", "arr", "art", "det", "beta")} | {"row_of_node_(1,0)": s["rows"][s["nt"]], "lines": s["lines"]})
-    for th in threads:
-        rc, recs, out = vlib.run_driver(exe, [path, what, th], timeout=3300, env={"OMP_NUM_THREADS": str(th)})
+    for (th, scale) in [(th, 1.0) for th in threads] + [(threads[-1], s) for s in scales if s != 1.0]:
+        rc, recs, out = vlib.run_driver(exe, [path, what, th, repr(scale)], timeout=3300, env={"OMP_NUM_THREADS": str(th)})
         summ = [x for x in recs if x.get("summary")]
         if rc != 0 or not summ:
             try:
@@ -82,6 +82,6 @@ def conformance(rep, tier, tabs, what, n_quick, prop_prefix, threads=(1,)):
             if x.get("fail"):
                 op = x["what"].split(":")[0].split(" node")[0][:40]
                 rep.violation("%s:%s:%s" % (prop_prefix, op.replace(" ", "_"), "dirbc" if x["dir"] else "origin"),
-                              "%s (instance nr=%d nt=%d circles=%d, threads %d)" % (x["what"], x["nr"], x["nt"], x["nc"], th),
+                              "%s (instance nr=%d nt=%d circles=%d, threads %d%s)" % (x["what"], x["nr"], x["nt"], x["nc"], th, "" if scale == 1.0 else ", coefficients scaled by %g" % scale),
                               replay={"tables": path, "instance": x["inst"]})
     return len(sel)
